@@ -376,6 +376,7 @@ impl Scenario for C05Bucket {
         Plan { prefill, token: r.chance(300), threads }
     }
     fn execute(&self, plan: &Plan, sched: &SchedSpec) -> RunReport {
+        let mut leak: Option<usize> = None;
         let (sim, hist, pf, fd, dd) = if plan.token {
             let total = plan.prefill as usize + plan.threads.iter().map(|t| t.len()).sum::<usize>() + 1;
             let ledger = Arc::new(Ledger { state: (0..total).map(|_| AtomicU8::new(0)).collect(), double_drop: AtomicU8::new(0) });
@@ -387,6 +388,14 @@ impl Scenario for C05Bucket {
                 Tok { tag: t, idx, ledger: l2.clone(), primary: true }
             });
             let (s, h, p, f) = run_ops::<Tok>(plan, sched, make);
+            // every simulated thread is gone; drain the epoch garbage (on this non-simulated thread)
+            // so that every detached block has really been destroyed, then each value with a
+            // destructor must have been dropped exactly once
+            crate::framework::flush_epoch();
+            let leaked = ledger.state.iter().filter(|x| x.load(Ordering::SeqCst) == 1).count();
+            if leaked > 0 && s.end == dsim::End::Completed && s.panics.is_empty() {
+                leak = Some(leaked);
+            }
             (s, h, p, f, ledger.double_drop.load(Ordering::SeqCst) != 0)
         } else {
             let make: Arc<dyn Fn(u64) -> u64 + Send + Sync> = Arc::new(|t| t);
@@ -402,6 +411,11 @@ impl Scenario for C05Bucket {
             v = check(plan, &hist, &pf, &fd);
             if v.is_none() && dd {
                 v = violation("double-drop", "a value with a destructor was dropped twice".into());
+            }
+            if v.is_none() {
+                if let Some(n) = leak {
+                    v = violation("value-never-dropped", format!("{} value(s) with a destructor were pushed, every block was cleared and reclaimed, yet their destructors never ran", n));
+                }
             }
         }
         let mut obs = String::new();
